@@ -47,9 +47,10 @@ RF_MODES = {          # mode -> (class, calls, needs object: None absent / "matc
     "match-ok": ("ok", ["GET"], "match"),
     "create": ("retry", ["GET", "POST"], None),
     "patch": ("retry", ["GET", "PATCH"], "differ"),
+    "recreate": ("retry", ["GET", "DELETE"], "differ"),     # update policy `recreate` (only C09 assigns it)
 }
 READONLY_MODES = ("get-ok", "get-retry")
-MUTATING = ("create", "patch")
+MUTATING = ("create", "patch", "recreate")
 
 
 # --------------------------------------------------------------------------- expressions
@@ -508,7 +509,8 @@ def fn_spec(fid, f):
     spec = {"apiConfig": {"apiVersion": API_VERSION, "kind": KIND, "plural": PLURAL, "name": name,
                           "namespace": NS, "readonly": rf["mode"] in READONLY_MODES},
             "resource": {"spec": {"want": 1}},
-            "create": {"delay": f["d"]}, "update": {"patch": {"delay": f["d"]}},
+            "create": {"delay": f["d"]},
+            "update": {"recreate" if rf["mode"] == "recreate" else "patch": {"delay": f["d"]}},
             "return": ret}
     if rf["pre"]:
         spec["preconditions"] = _pre(f["c"], f["d"]) if f["c"] != "ok" else []
